@@ -500,8 +500,13 @@ func (w *world) startNode(n *simNode, authh wasp.AuthenticationHandler) {
 	inflights := ack.NewQueue()
 	wr := wasp.NewWriter(n.id, n.dstate.Subscriptions(), n.local, inflights)
 	n.writer = wr
+	// the broker's components do not start at one instant: the log poller's 100 ms grid (on which
+	// the writer's 100 ms identifier retries land too) and the writer's 1 s expiry ticker get
+	// different anchors, so that two broker-internal timers never fall due at exactly the same time
 	go wasp.SchedulePublishes(n.id, wr, n.log)(n.ctx)
+	time.Sleep(131 * time.Microsecond)
 	go wr.Run(n.ctx, n.log)
+	time.Sleep(59 * time.Microsecond)
 	// the taps dispatcher is called synchronously by the publish worker right before it
 	// distributes a message: the simulator uses it to know which publish a worker goroutine is
 	// handling (a call refused by the cluster pool never reaches a callback that could tell)
@@ -1116,7 +1121,10 @@ func (w *world) run(hooks profileHooks) {
 		// client connection so that clients react at the simulated instant they would, and at
 		// least every 500 ms to notice broker-internal activity without client traffic
 		requeued := false
-		due := w.start.Add(time.Duration(e.at) * time.Millisecond)
+		// every simulated millisecond gets its own sub-microsecond offset: a broker timer started at
+		// one simulator instant (a 100 ms identifier retry, an 800 ms RPC deadline, a 3 s in-flight
+		// deadline) then never falls on the exact instant of a later simulator event
+		due := w.start.Add(time.Duration(e.at)*time.Millisecond + time.Duration(e.at%1009)*100*time.Nanosecond)
 		for time.Now().Before(due) {
 			// sleep to the exact instant on the simulator's own grid (a wake-up caused by a broker
 			// write happens on the broker's grid; rounding from there would drift onto it)
@@ -1171,6 +1179,11 @@ func (w *world) run(hooks profileHooks) {
 		}
 	}
 	w.curStep = len(c.Steps)
+	if os.Getenv("VERIF_DEBUG_OBS") != "" {
+		for _, ob := range w.obs {
+			fmt.Fprintf(os.Stderr, "OBS %d@%d c%d.%d rx=%v %s\n", ob.Stamp, ob.AtMs, ob.Client, ob.Epoch, ob.Rx, ob.P)
+		}
+	}
 	if hooks.judge != nil {
 		hooks.judge(w)
 	}
